@@ -269,9 +269,38 @@ class Machine(Interp):
         yield from level(0)
 
     def ev_ListComp(self, n, fr):
+        if len(n.generators) == 1 and not n.generators[0].ifs:
+            g = n.generators[0]
+            src = self.ev(g.iter, fr)
+            if isinstance(src, Opaque) and hasattr(src, "m_iter"):
+                src = src.m_iter(self)
+            if isinstance(src, SymStream):
+                # [f(x) for x in <list of unknown length>]: a list of the same length whose i-th element is f(src[i])
+                # (f is evaluated on demand; it must be a function of its argument — recursion goes through contracts)
+                def elem(vm_, idx, _src=src, _g=g, _n=n, _fr=fr):
+                    cfr = Frame(self, _fr.module, _fr.func, parent=_fr)
+                    self.assign(_g.target, _src.elem(vm_, idx), cfr)
+                    return self.ev(_n.elt, cfr)
+                self.ctx.notes.append(("mapped-comprehension", getattr(n, "lineno", 0)))
+                return SymStream(f"map:{src.name}", elem, length=src.length, meta={"kind": "list", "source": src})
+            return self._listcomp_over(n, fr, src)
         out = []
         for v in self._comp(n, fr, lambda f: (self.ev(n.elt, f),)):
             out.append(v)
+        return PyList(out)
+
+    def _listcomp_over(self, n, fr, src):
+        g = n.generators[0]
+        cfr = Frame(self, fr.module, fr.func, parent=fr)
+        out = []
+
+        def body(elem):
+            self.assign(g.target, elem, cfr)
+            out.append(self.ev(n.elt, cfr))
+            return None
+            yield
+        for _ in self.foreach(src, cfr, body, ("comp", getattr(n, "lineno", 0), 0), body_nodes=[n]):
+            pass
         return PyList(out)
 
     def ev_SetComp(self, n, fr):
@@ -577,6 +606,11 @@ class Machine(Interp):
         _, owner, selfv = sup
         start_cls = selfv if isinstance(selfv, ClassInfo) else selfv.cls
         mro = self.mro(start_cls)
+        if not any(c is owner for c in mro) and isinstance(selfv, ClassInfo):
+            # a metaclass method: self is a class, the search continues along the metaclass's MRO
+            mro = self.mro(owner)
+            if not any(isinstance(c, ExtClass) and c.name == "type" for c in mro):
+                mro = list(mro) + [self.ext("type")]
         idx = next(i for i, c in enumerate(mro) if c is owner)
         for c in mro[idx + 1:]:
             if isinstance(c, ClassInfo):
